@@ -14,6 +14,7 @@ import progrun
 
 sys.path.insert(0, os.path.join(vlib.VERIF, "gen"))
 import javaslice  # noqa: E402
+import javaexpr as JE  # noqa: E402
 import render  # noqa: E402
 
 META = {
@@ -55,11 +56,16 @@ def spec_stdout(e):
     message, and the run time its notice about a halt or an unhandled exception, to the standard error stream, so the
     last three atoms of such a behaviour (AldorSem.EvError: message, newline, halt notice; ThrTop: "Unhandled
     Exception: ", name, newline) are not part of stdout."""
-    if e["status"] in ("halt", "uncaught"):
+    if e["status"] == "uncaught":
+        # ThrTop appends "Unhandled Exception: ", the name, (a marker for carried values,) a newline
+        at = e["atoms"]
+        i = max((k for k, t in enumerate(at) if t == "Unhandled Exception: "), default=-1)
+        if i < 0 or i < len(at) - 4 or at[-1] != "\n" or not all(isinstance(t, str) for t in at[i:]):
+            raise vlib.MachineryError("unexpected end of an uncaught behaviour: %r" % at[-4:])
+        return render.expected_text(at[:i])
+    if e["status"] == "halt":
         tail = e["atoms"][-3:]
-        ok = len(tail) == 3 and all(isinstance(t, str) for t in tail) and \
-            ((e["status"] == "halt" and tail[1] == "\n" and "Halt" in tail[2]) or
-             (e["status"] == "uncaught" and tail[0] == "Unhandled Exception: " and tail[2] == "\n"))
+        ok = len(tail) == 3 and all(isinstance(t, str) for t in tail) and tail[1] == "\n" and "Halt" in tail[2]
         if not ok:
             raise vlib.MachineryError("unexpected end of a %s behaviour: %r" % (e["status"], tail))
         return render.expected_text(e["atoms"][:-3])
@@ -322,6 +328,244 @@ def corpus(chk, build, workdir, stats):
     stats["corpus_disagreements"] = len(seen)
 
 
+# ---------------------------------------------------------------------------------------------------------------
+# Integer constants on the Java route (spec/JavaLits.tla)
+
+LITS_CFG = {
+    # quick: every Integer boundary, the machine-integer boundaries next to 2^15 and 2^30
+    "quick": dict(Ks="{30, 31, 32, 53, 61, 62, 63, 64}", SKs="{15, 30}", GroupSize=3, Stride=1),
+    "thorough": dict(Ks="{29, 30, 31, 32, 33, 52, 53, 61, 62, 63, 64, 65, 95, 127, 128}", SKs="{7, 8, 15, 16, 29, 30}", GroupSize=2, Stride=1),
+}
+
+
+def write_cfg(name, text):
+    d = vlib.scratch("c12cfg")
+    path = os.path.join(d, name + ".cfg")
+    with open(path, "w") as fh:
+        fh.write(text)
+    return path
+
+
+def literal_programs(chk, tier):
+    """The programs TLC enumerates from the literal alphabet (JavaLits.tla): abstract programs like the generated ones."""
+    c = LITS_CFG[tier]
+    cfg = write_cfg("JavaLits", "SPECIFICATION Spec\nCONSTANTS Ks = %s\n SKs = %s\n GroupSize = %d\n Stride = %d\n Offset = %d\n"
+                                "INVARIANT Covers\nCHECK_DEADLOCK FALSE\n" % (c["Ks"], c["SKs"], c["GroupSize"], c["Stride"], chk.seed % c["Stride"]))
+    res = vlib.tlc("JavaLits", cfg, workers=4, timeout=600)
+    chk.add_tlc("JavaLits", res)
+    if res.violated:
+        raise vlib.MachineryError("JavaLits: %s violated\n%s" % (res.violated, res.trace_text[-1500:]))
+    progs = [javaslice.to_java_slice(json.loads(l[5:])) for l in res.printed if isinstance(l, str) and l.startswith("PROG ")]
+    progs.sort(key=lambda p: p["id"])
+    if not progs:
+        raise vlib.MachineryError("JavaLits exported no program")
+    return progs
+
+
+# ---------------------------------------------------------------------------------------------------------------
+# Builtin expressions on the Java route (spec/JavaExpr.tla, JavaExprGen.tla, TraceJavaExpr.tla; gen/javaexpr.py)
+
+EXPR_CFG = {
+    "quick": dict(Stride=29, Stride3=7, PerPair=1, NCand=24, levels=[1, 3], batch=420),
+    "thorough": dict(Stride=1, Stride3=1, PerPair=4, NCand=48, levels=[1, 3, 9], batch=300),
+}
+EXPR_RESTARTS = 12        # a route that stops on a case (Java exception, fault) is restarted on the cases after it
+
+
+def expr_generate(chk, tier):
+    c = EXPR_CFG[tier]
+    cfg = write_cfg("JavaExprGen", "SPECIFICATION Spec\nCONSTANTS Stride = %d\n Stride3 = %d\n Offset = %d\n PerPair = %d\n NCand = %d\n"
+                                   " Parts = {\"flat\", \"nest\"}\nINVARIANT PrinterSound\nCHECK_DEADLOCK FALSE\n"
+                    % (c["Stride"], c["Stride3"], chk.seed % 9973, c["PerPair"], c["NCand"]))
+    res = vlib.tlc("JavaExprGen", cfg, workers=max(2, vlib.NCPU // 2), timeout=3000)
+    chk.add_tlc("JavaExprGen", res)
+    if res.violated:
+        chk.violation("JavaExpr.tla: the printer's parenthesisation rule violates %s" % res.violated, res.trace_text,
+                      key={"model": "JavaExpr", "inv": res.violated})
+    sig = None
+    for l in res.printed:
+        if isinstance(l, str) and l.startswith("SIG "):
+            sig = {e["op"]: e for e in json.loads(l[4:])}
+    cases, nodist = JE.parse_cases(res.printed)
+    if sig is None or not cases:
+        raise vlib.MachineryError("JavaExprGen exported nothing\n" + res.out[-1500:])
+    return sig, cases, nodist
+
+
+def expr_skipkey(c):
+    return (c["kind"], c["op"], c.get("slot"), c.get("child"), JE.argclass(c["tree"]))
+
+
+def expr_run_config(build, batch, bi, sig, route, q, workdir, budget=None):
+    """Run one batch on one configuration.  -> {case id: ("ok", values) | ("fault", text) | ("skipped", text)}.
+    When the route stops on a case, that case is a fault, the later cases of the batch with the same operation and
+    operand signs are skipped (not judged), and the route is restarted on the rest.  When the whole unit is refused
+    (javac), the batch is halved until the refused cases stand alone; budget bounds the number of runs."""
+    budget = [40] if budget is None else budget
+    out = {}
+    remaining = list(batch)
+    for attempt in range(EXPR_RESTARTS + 1):
+        if not remaining:
+            break
+        prog = {"id": "E%d_%d" % (bi, attempt), "source_text": JE.render(remaining, sig), "render_opts": {"dialect": "libaldor"},
+                "funs": [], "top": []}
+        if budget[0] <= 0:
+            break
+        budget[0] -= 1
+        r = progrun.run_program(build, prog, route, workdir, q, timeout=900, cpu_limit=400)
+        if r.get("timeout") or r["phase"] in ("compile", "javac"):
+            cl = progcheck.classify(r, {"status": "done", "out": ""}) or ("?", "")
+            if r["phase"] == "compile" and cl[0] == "compile-reject":
+                raise vlib.MachineryError("generated expression program rejected by the compiler (%s -Q%d): %s\n%s"
+                                          % (route, q, cl[1], (r["out"] + r["err"])[:1500]))
+            if len(remaining) == 1:
+                out[remaining[0]["id"]] = ("fault", "%s: %s" % cl)
+                remaining = []
+                break
+            # the whole unit is refused (javac): halve to find the cases that cause it
+            half = len(remaining) // 2
+            a = expr_run_config(build, remaining[:half], bi * 100 + 2 * attempt + 1, sig, route, q, workdir, budget)
+            b = expr_run_config(build, remaining[half:], bi * 100 + 2 * attempt + 2, sig, route, q, workdir, budget)
+            out.update(a)
+            out.update(b)
+            remaining = []
+            break
+        vals = JE.split_output(r["out"], remaining, sig)
+        stop = next((i for i, v in enumerate(vals) if v is None), None)
+        for c, v in zip(remaining[:stop], vals[:stop]):
+            out[c["id"]] = ("ok", v)
+        if stop is None:
+            remaining = []
+            break
+        bad = remaining[stop]
+        m = re.search(r'Exception in thread "main" ([\w.$]+)(?::\s*([^\n]*))?', r["err"])
+        what = ("%s %s" % (m.group(1), (m.group(2) or "").strip())).strip() if m else \
+            (progcheck.classify(r, {"status": "done", "out": None}) or ("stopped", "rc=%s" % r["rc"]))[1] or "stopped rc=%s" % r["rc"]
+        out[bad["id"]] = ("fault", what)
+        sk = expr_skipkey(bad)
+        rest = []
+        for c in remaining[stop + 1:]:
+            if expr_skipkey(c) == sk:
+                out[c["id"]] = ("skipped", "after " + what)
+            else:
+                rest.append(c)
+        remaining = rest
+    for c in remaining:
+        out[c["id"]] = ("skipped", "restart budget used up")
+    return out
+
+
+
+def expr_validate(chk, events, name):
+    """TraceJavaExpr on chunks of the trace, several TLC processes side by side (each -workers 1)."""
+    if not events:
+        return [], {"checked": 0, "outside": 0, "rejected": 0}
+    nchunk = max(1, min(vlib.NCPU // 2, (len(events) + 799) // 800))
+    per = (len(events) + nchunk - 1) // nchunk
+    d = vlib.scratch("c12expr")
+
+    def one(k):
+        path = os.path.join(d, "%s_%d.ndjson" % (name, k))
+        vlib.write_ndjson(path, events[k * per:(k + 1) * per])
+        return vlib.tlc("TraceJavaExpr", "TraceJavaExpr", workers=1, env={"TRACE": path, "JAVA_TOOL_OPTIONS": "-XX:TieredStopAtLevel=1 -XX:ParallelGCThreads=2"},
+                        timeout=3000, xmx="3g")
+    rejects, total = [], {"checked": 0, "outside": 0, "rejected": 0}
+    with concurrent.futures.ThreadPoolExecutor(nchunk) as ex:
+        for k, res in enumerate(ex.map(one, range(nchunk))):
+            chk.add_tlc("TraceJavaExpr[%s.%d]" % (name, k), res)
+            summ = [json.loads(l[8:]) for l in res.printed if isinstance(l, str) and l.startswith("SUMMARY ")]
+            n = len(events[k * per:(k + 1) * per])
+            if res.violated or res.error or not summ or summ[0]["events"] != n:
+                raise vlib.MachineryError("expression trace not validated (%s %s)\n%s" % (res.violated, res.error, res.out[-1500:]))
+            for key in total:
+                total[key] += summ[0][key]
+            seen = set()
+            for l in res.printed:
+                if isinstance(l, str) and l.startswith("REJECT ") and l not in seen:
+                    seen.add(l)
+                    rj = json.loads(l[7:])
+                    rj["event"] = events[k * per + rj["line"] - 1]
+                    rejects.append(rj)
+    return rejects, total
+
+
+def expr_family(chk, build, tier, workdir, stats, corrupt=None):
+    t0 = time.time()
+    sig, cases, nodist = expr_generate(chk, tier)
+    c = EXPR_CFG[tier]
+    byid = {x["id"]: x for x in cases}
+    batches = [cases[i:i + c["batch"]] for i in range(0, len(cases), c["batch"])]
+    configs = [(route, q) for route in ROUTES for q in c["levels"]]
+    t1 = time.time()
+    obs = {}
+    with concurrent.futures.ThreadPoolExecutor(vlib.NCPU) as ex:
+        # the slow configurations first
+        jobs = sorted(((bi, route, q) for bi in range(len(batches)) for route, q in configs), key=lambda j: (-j[2], j[1] != "java"))
+        futs = {j: ex.submit(expr_run_config, build, batches[j[0]], j[0], sig, j[1], j[2], workdir) for j in jobs}
+        for j, f in futs.items():
+            obs[j] = f.result()
+    t2 = time.time()
+    # one event per distinct observation of a case
+    groups, skipped = {}, 0
+    for (bi, route, q), res in obs.items():
+        for cid, (st, v) in res.items():
+            if st == "skipped":
+                skipped += 1
+                continue
+            chk.case(("expr", cid, route, q), nontrivial=True)
+            groups.setdefault((cid, st, json.dumps(v)), []).append("%s-Q%d" % (route, q))
+    events, meta = [], []
+    for (cid, st, vj), who in sorted(groups.items(), key=lambda x: (x[0][0], x[0][1], x[0][2])):
+        v = json.loads(vj)
+        events.append({"ev": "Eval", "id": cid, "who": ",".join(sorted(who)), "tree": byid[cid]["tree"], "ok": st == "ok",
+                       "res": v if st == "ok" else []})
+        meta.append(v if st != "ok" else None)
+    if corrupt:
+        corrupt(events)
+    rejects, total = expr_validate(chk, events, "expr")
+    if total["outside"]:
+        raise vlib.MachineryError("TraceJavaExpr judges %d exported cases to be outside the family" % total["outside"])
+    # ---- report: one violation per (operation, operand signs, route, kind of failure) ----
+    rep = {}
+    fault_text = {(e["id"], e["who"]): m for e, m in zip(events, meta)}
+    for rj in rejects:
+        e = rj["event"]
+        cs = byid[e["id"]]
+        rts = sig[cs["tree"]["op"]]["res"]
+        for w in e["who"].split(","):
+            route, lvl = w.split("-")
+            ft = fault_text.get((e["id"], e["who"]))
+            fsig = "value" if e["ok"] else re.sub(r"\d+", "N", str(ft))[:80]
+            key = {"kind": "builtin-expr" if cs["kind"] == "flat" else "builtin-nest", "op": cs["op"], "route": route,
+                   "argclass": JE.argclass(cs["tree"]), "sig": fsig}
+            if cs["kind"] == "nest":
+                key.update({"child": cs["child"], "slot": cs["slot"]})
+            ent = rep.setdefault(json.dumps(key, sort_keys=True), {"key": key, "levels": set(), "examples": []})
+            ent["levels"].add(lvl)
+            if len(ent["examples"]) < 6:
+                ent["examples"].append({"expr": JE.tree_text(cs["tree"]), "config": w,
+                                        "got": JE.show_values(e["res"], rts) if e["ok"] else "(no result: %s)" % ft,
+                                        "expected": JE.show_values(rj["expected"], rts)})
+    for ent in rep.values():
+        key = dict(ent["key"], opts=sorted("-" + l for l in ent["levels"]))
+        ex0 = ent["examples"][0]
+        chk.violation("%s on %s %s: %s gives %s, the specification %s" % (key["kind"], key["route"], ",".join(key["opts"]), ex0["expr"],
+                                                                          ex0["got"], ex0["expected"]),
+                      {"key": key, "examples": ent["examples"], "how": "gen/javaexpr.py render() of the expression, aldor -Q<n> "
+                       "-Jmain -Fjava / -Ginterp (libaldor), see checks/c12.py expr_family"}, key=key)
+    chk.traces += sum(1 for res in obs.values() for st, v in res.values() if st != "skipped")
+    nest = [x for x in cases if x["kind"] == "nest"]
+    stats["expr"] = {"cases": len(cases), "flat": len(cases) - len(nest), "nested": len(nest),
+                     "nested_pairs_requiring_parentheses": len({(x["op"], x["slot"], x["child"]) for x in nest if x["req"]}),
+                     "nested_pairs_with_distinguishing_operands": len({(x["op"], x["slot"], x["child"]) for x in nest if x["req"] and x["dist"]}),
+                     "pairs_without_distinguishing_operands": len([x for x in nodist if x["req"] and x["n"] > 0]),
+                     "pairs_without_member": len([x for x in nodist if x["n"] == 0]),
+                     "levels": c["levels"], "batches": len(batches), "observations": len(events), "judged": total["checked"],
+                     "rejected": total["rejected"], "skipped_after_fault": skipped,
+                     "gen_s": round(t1 - t0, 1), "run_s": round(t2 - t1, 1), "validate_s": round(time.time() - t2, 1)}
+    return sig, cases
+
+
 def model_check(chk, tier):
     """The monitor itself, exhaustively on small constants."""
     runs = [("JavaRouteMC", 8)] if tier == "quick" else [("JavaRouteMC", 8), ("JavaRouteMC1", 8), ("JavaRouteMC2", 8)]
@@ -347,6 +591,7 @@ def run(chk, tier):
         mc = bg.submit(model_check, chk, tier)
         # the hand-built probes of every admitted feature (and of the family boundary) lead the first batch
         fixed = javaslice.fixed_programs()
+        lits = literal_programs(chk, tier)
         n = 20 if tier == "quick" else 900
         batch = 20 if tier == "quick" else 100
         budget = 100 if tier == "quick" else 1500
@@ -357,11 +602,11 @@ def run(chk, tier):
             nh = m // 5                       # every fifth program has the halt feature forced on
             progs = javaslice.generate(seed, m - nh) + javaslice.generate(seed + 500009, nh, force=["halt", "fun"], prefix="h")
             if k == 0:
-                progs = fixed + progs
+                progs = fixed + lits + progs
             members, e64, _ = campaign(chk, b, progs, "batch%d" % k, wd, stats)
             if k == 0:
                 ids = set(p["id"] for p in members)
-                must = set(p["id"] for p in fixed if not p["id"].startswith("X_"))
+                must = set(p["id"] for p in fixed + lits if not p["id"].startswith("X_"))
                 if must - ids:
                     raise vlib.MachineryError("fixed probes fell outside the family: %s" % sorted(must - ids))
                 if [i for i in ids if i.startswith("X_")]:
@@ -377,6 +622,7 @@ def run(chk, tier):
                 stats["stopped_early_after_programs"] = done
                 break
         corpus(chk, b, wd, stats)
+        expr_family(chk, b, tier, wd, stats)
         for cfg, r in mc.result():
             chk.add_tlc(cfg, r)
             if r.violated:
